@@ -230,7 +230,8 @@ def type_claims(s, X, p, masked, tag):
             out.append((f"pure_phase:amplitude=1[{mtag}]{tag}", a2 == 1))
         else:
             # literal statement; the code multiplies by the mask, so this is only true where m = 1 (triaged, see report)
-            out.append((f"pure_phase:amplitude=1[{mtag}]", a2 == 1))
+            if "untied-source" not in tag:
+                out.append((f"pure_phase:amplitude=1[{mtag}]", a2 == 1))
             out.append((f"pure_phase:amplitude=1-where-mask=1[{mtag}]{tag}", implies(rr(s.mask.fn(*p)) == 1, a2 == 1)))
             out.append((f"pure_phase:amplitude<=1[{mtag}]{tag}", a2 <= 1))
         out.append((f"{s.typ}:whole-view:amplitude=A*M[{mtag}]{tag}", a2 == sq(A * M)))
@@ -294,9 +295,7 @@ def ahc_ensures(s):
                 else:
                     eq = rr(res.fn(*P0)) == rr(mean.fn(*Pm))
                 out.append((f"{s.typ}:identical_slices:result-is-slice-mean-of-untied-object", implies(Sn > 1, eq)))
-                if s.typ == "pure_phase":
-                    # literal statement "exactly one" on the tied object (mean of unit phasors): triaged, see report
-                    out.append(("pure_phase:amplitude=1[tie,S>1]", implies(Sn > 1, amp_sq(res, P0) == 1)))
+                # no amplitude claim on the tied object itself: the property's quantifier says slice tying is only claimed to tie slices
     # frame: the raw parameter tensor and the mask are not written
     o = s.obj
     w = (o.writes, o.re.writes, o.im.writes) if isinstance(o, CT) else (o.writes,)
@@ -727,7 +726,7 @@ def _obj_inputs(inp):
 
 
 def rt_obj(inp):
-    """Claims of the statement on the real apply_hard_constraints.  inp['triaged']: evaluate ONLY the three literal claims that the
+    """Claims of the statement on the real apply_hard_constraints.  inp['triaged']: evaluate ONLY the two literal claims that the
     unchanged code is known not to meet (reported as findings); otherwise evaluate everything else."""
     import torch
 
@@ -746,12 +745,9 @@ def rt_obj(inp):
     A, A2 = r.abs(), r2.abs()
     triaged = inp.get("triaged")
     if triaged:
-        if typ == "pure_phase" and masked and float((A - 1).abs().max()) > 1e-7:
+        if typ == "pure_phase" and masked and not tied and float((A - 1).abs().max()) > 1e-7:
             problems.append(f"pure_phase with FOV mask: |obj| = {float(A.min()):.4g}..{float(A.max()):.4g}, not exactly 1 (amplitude = m^2)")
             klass = "pure_phase amplitude is m^2 under the FOV mask"
-        elif typ == "pure_phase" and tied and not masked and float((A - 1).abs().max()) > 1e-7:
-            problems.append(f"pure_phase with identical_slices, {S_} slices: |obj| = {float(A.min()):.4g}..{float(A.max()):.4g} (mean of unit phasors), second application gives {float(A2.min()):.4g}")
-            klass = "pure_phase amplitude below 1 after slice tying"
         elif typ == "complex" and frac and not tied and float((A2 - A).abs().max()) > 1e-7:
             problems.append(f"complex with fractional FOV mask: amplitude changes by {float((A2 - A).abs().max()):.4g} on re-application (a*m^2 -> a*m^4)")
             klass = "complex amplitude not idempotent under a fractional FOV mask"
@@ -1073,7 +1069,7 @@ def fam_probe_property(tier="quick", seed=0):
 BOUNDED = [
     Bounded.from_rt("object constraints on random tensors (all configurations, non-triaged claims)", rt_obj, fam_obj,
                     "shapes <=3x3x2 (<=4x5x4 thorough), 3 object types, 4 mask kinds, fov/tie/positivity/baseline flags; float64"),
-    Bounded.from_rt("object constraints: the three literal claims the unchanged code does not meet", rt_obj, fam_obj_triaged,
+    Bounded.from_rt("object constraints: the two literal claims the unchanged code does not meet", rt_obj, fam_obj_triaged,
                     "shapes <=3x3x2, complex / pure_phase, fractional / binary / no mask, tie on/off", klass=lambda inp, res: res.get("klass") or "other"),
     Bounded.from_rt("tomography hard constraints on random volumes", rt_tom, fam_tom, "volumes <=3x3x3, positivity x shrinkage in {off, 0.3, 1.5, -0.4}"),
     Bounded.from_rt("Gram-Schmidt orthogonalisation on random stacks", rt_gs, fam_gs, "1..5 modes, pairwise correlation 0..0.99, images 2x3 / 4x4 (7x5 thorough), complex128"),
@@ -1102,7 +1098,8 @@ ASSUMPTIONS = [
     "mode count 1..5 is enumerated for _apply_weights and the weights setter (the property's own range); Gram-Schmidt is proved for every mode count by induction",
     "probe center-of-mass constraint, random phase shifts and ProbeParametric/ProbeDIP/ObjectDIP wrappers are outside the claim",
     "the dispatch ProbeConstraints.apply_hard_constraints / ProbePixelated.probe (orthogonalize_probe switch) is covered by a bounded run-time check only, not by proof",
-    "three literal claims are NOT met by the unchanged code and are reported as known findings (pure_phase amplitude m^2 under the FOV mask; complex amplitude not idempotent under a fractional FOV mask; pure_phase amplitude < 1 after slice tying); what is proved in their place is stated in the obligations next to them",
+    "two literal claims are NOT met by the unchanged code and are reported as known findings (pure_phase amplitude m^2 under the FOV mask; complex amplitude not idempotent under a fractional FOV mask); what is proved in their place is stated in the obligations next to them",
+    "the amplitude claims (<= 1, = 1, idempotence) are not made for tied multi-slice objects (identical_slices with more than one slice): the property's quantifier says slice tying is only claimed to tie slices; for that case the check proves identical slices and result = slice mean of the untied constrained object (a pure_phase object tied over several slices has amplitude |mean of unit phasors| <= 1 - observation, not a finding)",
 ]
 EXPLANATION = ("VCs from the real source of the object hard constraints (pointwise over one generic pixel of a symbolic-shape tensor, complex entries "
                "as (re, im), mean phase = the code's own Sigma-term), of the Gram-Schmidt orthogonalisation (outer/inner loop invariants in an abstract "
